@@ -21,6 +21,7 @@ route_layer wraps exactly the routes present at call time and keeps matcher and 
 no field that could retain a layer for later routes; add_rpc_service registers "/" + SERVICE_NAME +
 "/*rest". The remote-reachable panic inventory of the routing code contains only that justified expect.
 The request-header conversion is total and field-to-field, so every decodable route string reaches the router (C07.4 re-evaluated).
+merge hands every entry its iteration yields to route(): no path to the next iteration or to the return skips it.
 """
 TRUSTED = ["matchit 0.5 matching semantics and freedom from panics on arbitrary strings (third-party body, not analysed)", "BTreeMap/HashMap semantics"]
 NOT_DECIDED = ["matchit's wildcard precedence ('exactly the matching pattern')", "panics inside matchit on odd route strings"]
@@ -197,6 +198,17 @@ def run(cx):
         g = b.calls_to("HashMap::get")
         k = arg_origin(g[0], 1, o) if g else ("unknown",)
         ob.require(len(g) == 1 and any(x[0] == "field" and x[2] == "0" for x in walk(k)) and term_has_call(k, "Iterator::next"), "merge/id-of-entry", f"path looked up by {show(k)[:100]}", b.path)
+        # every entry the iteration yields is registered: no path from one `next()` to the following one (or to the
+        # return) skips self.route - a route of the other router that is silently dropped answers NotFound afterwards
+        nx = [c for c in b.calls_to("Iterator::next") if c.target is not None]
+        ob.floor(nx, 1, "iteration over the other router's routes in merge", exact=True)
+        cur = nx[0].target
+        while b.term(cur)["k"] in ("goto", "falseedge", "falseunwind", "drop"):
+            cur = b.term(cur)["target"]
+        ob.require(b.term(cur)["k"] == "switch", "merge/loop-form", "merge: the iteration's next() is not followed by the Some/None test", b.path)
+        some = [t for t in b.succ(cur) if nx[0].bb in b.reachable_from(t)]
+        ob.require(bool(some) and all(b.all_paths_pass(t, set(b.return_blocks()) | {nx[0].bb}, {rc[0].bb}) for t in some), "merge/every-entry",
+                   "merge: a path from a yielded route entry to the next iteration (or to the return) skips self.route(..)", b.path)
         # route_layer closure: (id, Route::new(layer.layer(route)))
         lb = cx.body(f"{RT}::route_layer")
         lo = Origins(lb)
